@@ -5,6 +5,18 @@ props = [json.loads(l) for l in open(os.path.join(VERIF, "properties.jsonl"))]
 ids = [p["id"] for p in props]
 
 CHECKS = {
+ "C04": dict(
+   text="Proof (normalisation) + oracle-parametrised tie (blocks). props/C04.v (closed): for ANY scalar solve function, the model's sweep "
+        "returns at index k the scalar solve at the k-th value of every parameter with scalars and length-1 arrays broadcast "
+        "(sweep_pointwise), all arrays longer than 1 share the sweep length, and two different lengths > 1 are rejected (sweep_reject). "
+        "That numpy batching and every block's create_S implement 'slice by slice' is not a theorem but the tie: (i) solver hierarchies with "
+        "probe/spy leaves are swept over random mixes of scalar / length-1 / length-n values and malformed mixes, every sweep index compared "
+        "with the model; (ii) EVERY bare library block (also inside a solver, and mode-expanded) is swept over each of its parameters and "
+        "must equal bit-for-bit the stack of its scalar solves.",
+   note="Trusted: Coq kernel + vm_compute; models Sweep.v/Params.v tied by sampled correspondence; for the block half the scalar solve of "
+        "/repo is the oracle (its physics is C09's subject). Names re-defined by add_param at the solved level are not swept (they are no "
+        "longer parameters). Follows the fixed code (F02, F27).",
+   technique="Coq proof (normalisation/broadcast laws for any scalar solve) + vm_compute correspondence; block sweeps vs stacked scalar solves", design="§5 C04"),
  "C06": dict(
    text="Proof + observation. In the model a solve is a function of the circuit and the call's arguments (no state is threaded), so "
         "history-freedom of the VALUES holds by construction; props/C06.v proves (closed) that the one piece of state the code keeps "
